@@ -92,9 +92,20 @@ pub fn fnv32(data: &[u8]) -> u32 {
 }
 
 /// split a stream into pieces according to a partition spec: w | b | k<n> | r<seed>
-pub fn partition(spec: &str, data: &[u8]) -> Vec<Vec<u8>> {
+thread_local! {
+    pub static PART_OVERRIDE: std::cell::RefCell<Option<String>> = std::cell::RefCell::new(None);
+}
+
+pub fn partition(spec0: &str, data: &[u8]) -> Vec<Vec<u8>> {
+    // component "pair" runs a case twice with the partition of every input op overridden
+    let over = PART_OVERRIDE.with(|p| p.borrow().clone());
+    let spec_owned = over.unwrap_or_else(|| spec0.to_string());
+    let spec: &str = &spec_owned;
     let (h, rest) = spec.split_at(1);
     let mut out = Vec::new();
+    if data.is_empty() {
+        return vec![vec![]];      // one call with no bytes, whatever the partition
+    }
     match h {
         "w" => out.push(data.to_vec()),
         "b" => {
